@@ -152,7 +152,9 @@ def main(argv=None):
             json.dump(ev, f, indent=1)
     if broken:
         print("ANALYSIS-BROKEN property=%s: %s" % (prop, broken), file=sys.stderr)
-        return 2
+        # rules that ran to completion before the broken anchor was met have reported real violations:
+        # those stand (exit 1); only a run without any violation is reported as analysis-broken (exit 2)
+        return 1 if new else 2
     print("%s: %d rule instances evaluated, %d held, %d known findings, %d new violations, %d functions, %.1fs"
           % (prop, rep.obligations, rep.discharged, len(old), len(new), len(rep.functions), wall))
     return 1 if new else 0
